@@ -467,6 +467,10 @@ class Model:
         if isinstance(callee, Obj):
             if "__partial__" in callee.attrs:          # functools.partial(f, *a, **k)(*b, **l) == f(*a, *b, **{**k, **l})
                 f0, a0_, k0_ = callee.attrs["__partial__"]
+                if I.call_hook is not None and isinstance(f0, FuncRef):          # hooks see the function behind the partial under its own name, with the merged arguments
+                    r_ = I.call_hook(I, f0.qualname, list(a0_) + list(pos), {**k0_, **kw}, node)
+                    if r_ is not NotImplemented:
+                        return r_
                 return self.invoke(f0, list(a0_) + list(pos), {**k0_, **kw}, node, name)
             if "__itemgetter__" in callee.attrs and len(pos) == 1 and not kw:
                 return self.getitem(pos[0], callee.attrs["__itemgetter__"], node)
